@@ -8,7 +8,7 @@ for f in sorted(glob.glob('/verif/seeded/*/meta.json')):
     caught = ev.get('caught_by', [])
     tried = sorted(ev.get('checks', {}).keys())
     rows.append((m.get('property', '?'), name, m.get('summary', '').replace('|', '/').replace('\n', ' '), m.get('needs_to_manifest', '').replace('|', '/').replace('\n', ' '),
-                 ', '.join(caught) or '**none**', ', '.join(c for c in tried if c not in caught), ev.get('repo_suite_with_change', '?'), ev.get('demo_with_change', '?')[:5]))
+                 ', '.join(caught) or ('none (out of the properties\' input domain: ' + m['out_of_domain'][:120] + '...)' if m.get('out_of_domain') else '**none**'), ', '.join(c for c in tried if c not in caught), ev.get('repo_suite_with_change', '?'), ev.get('demo_with_change', '?')[:5]))
 out = ["# Independently seeded property-breaking changes", "",
        "Each directory holds `patch.diff` (the change, produced by a sub-agent that saw only the property text and a scratch worktree),",
        "`seed_demo_test.go` (fails with the change, passes without) and `meta.json` (what it needs to manifest + our evaluation:",
